@@ -6,4 +6,6 @@ git -C /repo apply "$patch" || { echo "patch does not apply"; exit 2; }
 for p in "$@"; do
   timeout 600 ./check $p quick 2>&1 | grep -E "VIOLATION|quick:" | cut -c1-200
 done
+# undo: tracked files back, and files the patch added removed
 git -C /repo checkout -- .
+git -C /repo clean -fdq -- src tests res 2>/dev/null
